@@ -434,6 +434,37 @@ def interrupted_flag(ctx, P, views, iters):
                                       % ("added to" if want == "True" else "taken out of", want), e.where, witness(st))
 
 
+def event_precedence(ctx, P, views, before):
+    """among events of one node that fall on the same instant, decide_next_event takes the first in a fixed order (strict `<` over a literal sequence of
+    event types).  `before` = {type: types that must win a tie against it}.  A selection whose tie order is not fixed by the source (min over a dictionary,
+    a set) decides nothing about simultaneous events and is reported."""
+    ob = ctx.ob("PREC", "decide_next_event: simultaneous events of one node are taken in a fixed literal order (first wins): %s"
+                % "; ".join("%s before %s" % (", ".join(v), k) for k, v in sorted(before.items())))
+    from .. import scans
+    for view in views:
+        cls, fn = view.method("decide_next_event")
+        order = None
+        for sc in scans.find_scans(fn):
+            it = sc.loop.iter
+            if isinstance(it, (ast.List, ast.Tuple)) and all(isinstance(e, ast.Constant) for e in it.elts):
+                order = [e.value for e in it.elts]
+            elif isinstance(it, ast.Dict) and all(isinstance(k, ast.Constant) for k in it.keys):
+                order = [k.value for k in it.keys]
+            if order is not None and not sc.strict:
+                order = list(reversed(order))       # `<=`: the later of two equal candidates is kept
+        ob.ok("%s.decide_next_event" % view.name, "tie order %s" % order)
+        if order is None:
+            ctx.violation(ob, "R6.tie-order", "%s.decide_next_event" % cls.name, "selection", "tie-order-not-fixed",
+                          "the next event is not selected by a first-wins scan over a literal sequence of event types: which of two simultaneous events runs first "
+                          "is then left to dictionary order", loc(fn))
+            continue
+        for late, firsts in sorted(before.items()):
+            for f in firsts:
+                if late in order and f in order and order.index(f) > order.index(late):
+                    ctx.violation(ob, "R6.tie-order", "%s.decide_next_event" % cls.name, "%s before %s" % (late, f), "tie-order",
+                                  "at equal dates %r must be handled before %r (order found: %s)" % (f, late, order), loc(fn))
+
+
 def event_tables(ctx, P, views):
     ob = ctx.ob("EVT", "event types produced (possible_next_events keys, __init__) == types ranked by decide_next_event == branches of have_event")
     for view in views:
